@@ -189,9 +189,9 @@ theorem makeOf_u8 (n : UInt8) : Go.makeOf (0 : UInt8) ((n.toNat : Nat) : Int) = 
 theorem unmarshal_loop (fuel0 : Nat) (n : UInt8) (d : List UInt8) : ∀ (c fuel i p : Nat) (m : Indexmeta_Meta),
     i + c = n.toNat → c < fuel →
     match CI.parseMetaKVs c (d.drop p) with
-    | some l => ∃ r', metaUnmarshalDec.loop1 fuel0 n fuel (i : Int) m ⟨d, p⟩
-        = .ok (.done ((n.toNat : Int), { m with KeyVals := m.KeyVals ++ l.map mkKV }, r'))
-    | none => ∃ t, metaUnmarshalDec.loop1 fuel0 n fuel (i : Int) m ⟨d, p⟩ = .error (.err t) := by
+    | some l => ∃ r', metaUnmarshalDec.loop1 fuel0 n fuel ⟨d, p⟩ (i : Int) m
+        = .ok (.done (r', (n.toNat : Int), { m with KeyVals := m.KeyVals ++ l.map mkKV }))
+    | none => ∃ t, metaUnmarshalDec.loop1 fuel0 n fuel ⟨d, p⟩ (i : Int) m = .error (.err t) := by
   intro c
   induction c with
   | zero =>
